@@ -84,31 +84,37 @@ theorem jobsUnique_append (s : State) (b : Nat) (js : List Job) (hb : ∀ x ∈ 
 
 /-- what a transaction may do to the three tables -/
 structure Shape (s s' : State) : Prop where
-  groups : ∃ F new, GroupFrame F ∧ s'.groups = s.groups.map F ++ new
+  groups : ∃ F new, GroupFrame F ∧ s'.groups = s.groups.map F ++ new ∧ ∀ n ∈ new, n.id ∈ n.ancestors
   cancelled : ∃ new, s'.cancelled = s.cancelled ++ new
   jobs : ∃ F new, JobFrame F ∧ s'.jobs = s.jobs.map F ++ new
   unique : JobsUnique s → JobsUnique s'
 
 theorem Shape.refl (s : State) : Shape s s :=
-  ⟨⟨id, [], GroupFrame.id, by simp⟩, ⟨[], by simp⟩, ⟨id, [], JobFrame.id, by simp⟩, fun h => h⟩
+  ⟨⟨id, [], GroupFrame.id, by simp, by simp⟩, ⟨[], by simp⟩, ⟨id, [], JobFrame.id, by simp⟩, fun h => h⟩
 
 theorem Shape.trans {a b c : State} (h1 : Shape a b) (h2 : Shape b c) : Shape a c := by
-  obtain ⟨⟨F1, n1, hF1, e1⟩, ⟨c1, ec1⟩, ⟨J1, m1, hJ1, j1⟩, u1⟩ := h1
-  obtain ⟨⟨F2, n2, hF2, e2⟩, ⟨c2, ec2⟩, ⟨J2, m2, hJ2, j2⟩, u2⟩ := h2
-  refine ⟨⟨F2 ∘ F1, n1.map F2 ++ n2, hF1.comp hF2, ?_⟩, ⟨c1 ++ c2, ?_⟩, ⟨J2 ∘ J1, m1.map J2 ++ m2, hJ1.comp hJ2, ?_⟩,
+  obtain ⟨⟨F1, n1, hF1, e1, hn1⟩, ⟨c1, ec1⟩, ⟨J1, m1, hJ1, j1⟩, u1⟩ := h1
+  obtain ⟨⟨F2, n2, hF2, e2, hn2⟩, ⟨c2, ec2⟩, ⟨J2, m2, hJ2, j2⟩, u2⟩ := h2
+  refine ⟨⟨F2 ∘ F1, n1.map F2 ++ n2, hF1.comp hF2, ?_, ?_⟩, ⟨c1 ++ c2, ?_⟩, ⟨J2 ∘ J1, m1.map J2 ++ m2, hJ1.comp hJ2, ?_⟩,
     fun h => u2 (u1 h)⟩
   · rw [e2, e1]; simp [List.map_append, List.map_map]
+  · intro n hn
+    rcases List.mem_append.mp hn with h | h
+    · rw [List.mem_map] at h
+      obtain ⟨m, hm, rfl⟩ := h
+      rw [(hF2 m).2.1, (hF2 m).2.2.1]; exact hn1 m hm
+    · exact hn2 n h
   · rw [ec2, ec1]; simp
   · rw [j2, j1]; simp [List.map_append, List.map_map]
 
 /-- a state that differs from `s` in none of the three tables -/
 theorem Shape.of_eq {s s' : State} (hg : s'.groups = s.groups) (hc : s'.cancelled = s.cancelled) (hj : s'.jobs = s.jobs) :
     Shape s s' :=
-  ⟨⟨id, [], GroupFrame.id, by simp [hg]⟩, ⟨[], by simp [hc]⟩, ⟨id, [], JobFrame.id, by simp [hj]⟩, JobsUnique.of_jobs_eq hj⟩
+  ⟨⟨id, [], GroupFrame.id, by simp [hg], by simp⟩, ⟨[], by simp [hc]⟩, ⟨id, [], JobFrame.id, by simp [hj]⟩, JobsUnique.of_jobs_eq hj⟩
 
 theorem shape_updateJobs (s : State) (p : Job → Bool) (f : Job → Job) (hf : JobFrame f) :
     Shape s (updateJobs s p f) :=
-  ⟨⟨id, [], GroupFrame.id, by simp⟩, ⟨[], by simp⟩,
+  ⟨⟨id, [], GroupFrame.id, by simp, by simp⟩, ⟨[], by simp⟩,
    ⟨fun j => if p j then f j else j, [], JobFrame.ite p hf, by simp [updateJobs_jobs]⟩,
    jobsUnique_of_map (JobFrame.ite p hf) (updateJobs_jobs s p f)⟩
 
